@@ -423,3 +423,30 @@ Theorem C11_ring_latitude_range :
   Forall (fun p => -90 - 1 / 10 ^ 12 <= snd p <= 90 + 1 / 10 ^ 12) ring.
 Proof. exact cell_to_boundary_lat_range. Qed.
 Print Assumptions C11_ring_latitude_range.
+
+(* ---- Longitude window (ideal-real instance; Geo/RingLonWindow.v).  After normalisation every longitude of a ring lies
+   within 180 degrees of one centre longitude (the model's center_lon), hence any two differ by at most 360: a cell
+   crossing the antimeridian is reported unwrapped in one 360-degree window, never split.  (That the extent of a cell
+   away from the poles is below 180 degrees is geometric and not proved.) ---- *)
+From A5 Require Import Geo.RingLonWindow.
+
+Theorem C11_normalize_window :
+  forall contour nb : list (R * R),
+  normalize_longitudes RInst contour = Some nb ->
+  exists c : R, Forall (fun q => -180 <= fst q - c <= 180) nb.
+Proof. exact normalize_longitudes_window. Qed.
+Print Assumptions C11_normalize_window.
+
+Theorem C11_ring_longitude_window :
+  forall (id : Z) (segs : option Z) (closed : bool) (ring : list (R * R)),
+  cell_to_boundary RInst id segs closed = Some (Ok ring) ->
+  exists c : R, Forall (fun q => -180 <= fst q - c <= 180) ring.
+Proof. exact cell_to_boundary_lon_window. Qed.
+Print Assumptions C11_ring_longitude_window.
+
+Theorem C11_ring_longitude_spread :
+  forall (id : Z) (segs : option Z) (closed : bool) (ring : list (R * R)),
+  cell_to_boundary RInst id segs closed = Some (Ok ring) ->
+  forall p q, In p ring -> In q ring -> Rabs (fst p - fst q) <= 360.
+Proof. exact cell_to_boundary_lon_spread. Qed.
+Print Assumptions C11_ring_longitude_spread.
